@@ -147,7 +147,7 @@ func genCase(c int64) caseFile {
 	var contracts []common.Address
 	var prev [][]byte // earlier txs (for repetition)
 	kvKeys := [][]byte{}
-	focus := c % 6 // each case leans to one family so that all get volume
+	focus := c % 7 // each case leans to one family so that all get volume
 	nb := 1 + rng.Intn(5)
 	for b := 0; b < nb; b++ {
 		var txs, kinds []string
@@ -160,7 +160,46 @@ func genCase(c int64) caseFile {
 			x := rng.Float64()
 			fam := int(focus)
 			if x < 0.45 {
-				fam = rng.Intn(6)
+				fam = rng.Intn(7)
+			}
+			if fam == 6 {
+				// combination: a state-changing tx and a tx of the SAME sender that fails half-way
+				// (value > balance: the nonce is bumped before the transfer fails), in either order
+				to := evmdrive.Addr(keys[labels[rng.Intn(len(labels))]])
+				mk := func(good bool) ([]byte, string) {
+					if !good {
+						return evmdrive.SignedTx(k, nonce[l], &to, 1+int64(rng.Intn(9)), 21000, 0, nil), "combo-value-unaffordable"
+					}
+					var t []byte
+					kd := ""
+					switch rng.Intn(3) {
+					case 0:
+						key := []byte(fmt.Sprintf("kc%d-%d", c, len(kvKeys)))
+						kvKeys = append(kvKeys, key)
+						t, kd = evmdrive.KVTx(k, nonce[l], key, []byte("combo")), "combo-kv"
+					case 1:
+						t, kd = evmdrive.SignedTx(k, nonce[l], nil, 0, 3000000, 0, evmdrive.Deploy(evmdrive.CounterRuntime)), "combo-create"
+						contracts = append(contracts, evmdrive.ContractAddr(evmdrive.Addr(k), nonce[l]))
+					default:
+						t, kd = evmdrive.SignedTx(k, nonce[l], &to, 0, 21000, 0, []byte{1, 2, 3}), "combo-transfer0"
+					}
+					nonce[l]++
+					return t, kd
+				}
+				order := []bool{true, false}
+				if rng.Intn(2) == 0 {
+					order = []bool{false, true}
+				}
+				if rng.Intn(3) == 0 {
+					order = append(order, rng.Intn(2) == 0)
+				}
+				for _, g := range order {
+					t, kd := mk(g)
+					prev = append(prev, t)
+					txs = append(txs, hex.EncodeToString(t))
+					kinds = append(kinds, kd)
+				}
+				continue
 			}
 			switch fam {
 			case 0: // garbage
